@@ -35,6 +35,7 @@ type Import struct {
 // Execute runs a rule and its imports into ctx.
 func Execute(r *Rule, ctx *an.Ctx) {
 	r.Run(ctx)
+	runLockTable(r.ID, ctx)
 	done := map[string]*an.Ctx{}
 	for _, im := range r.Imports {
 		prop := im.From
